@@ -8,7 +8,7 @@ from ..lhamodel.lz import expand
 
 LEVEL = 'exploration'
 _EXE = None
-SOURCES = ['uniform314', 'uniform256', 'zipf', 'two', 'one', 'roundrobin', 'bursts', 'copies-heavy', 'ramp', 'fibonacci']
+SOURCES = ['uniform314', 'uniform256', 'zipf', 'two', 'one', 'roundrobin', 'bursts', 'copies-heavy', 'ramp', 'fibonacci', 'staircase']
 
 
 def gen_fibonacci(rnd, nsym):
@@ -35,9 +35,35 @@ def gen_fibonacci(rnd, nsym):
     return cmds
 
 
+def gen_staircase(rnd, nsym):
+    """Symbol number s is used about s times, all interleaved: the nodes of the tree then hold as many *different* frequency values
+    at once as a tree of 627 nodes can (400 and more; ordinary data stays below 300).  Variants stop before the first rebuild
+    or run through it; with and without the copy-length symbols."""
+    nsyms = rnd.choice([245, 256, 300, 314])
+    order = list(range(nsyms))
+    rnd.shuffle(order)
+    step = rnd.choice([1, 1, 2])
+    left = {s: 1 + rank * step for rank, s in enumerate(order)}
+    cmds = []
+    live = list(order)
+    while live and len(cmds) < nsym:
+        nxt = []
+        for s in live:
+            cmds.append(('L', s) if s < 256 else ('C', rnd.randrange(1, 4097), s - 253))
+            left[s] -= 1
+            if left[s] > 0:
+                nxt.append(s)
+        live = nxt
+    while len(cmds) < nsym // 4:
+        cmds.append(('L', rnd.randrange(256)))
+    return cmds
+
+
 def gen(rnd, source, nsym):
     if source == 'fibonacci':
         return gen_fibonacci(rnd, max(nsym, 36000))
+    if source == 'staircase':
+        return gen_staircase(rnd, nsym)
     cmds = []
     outlen = 0
     cp = {'copies-heavy': 0.8, 'one': 0.0, 'two': 0.05}.get(source, rnd.choice([0.0, 0.1, 0.3]))
@@ -119,6 +145,7 @@ def shard(seed, specs):
         sh.count('tie_exchanges', st['tie_exchanges'])
         sh.count('exchanges', st['exchanges'])
         sh.cov['max_code_bits'] = max(sh.cov.get('max_code_bits', 0), st['max_code_bits'])
+        sh.cov['max_distinct_node_frequencies'] = max(sh.cov.get('max_distinct_node_frequencies', 0), st['max_distinct_freqs'])
         sh.count('output_bytes', len(exp))
         sh.hist('streams_by_source', st['source'])
         sh.hist('streams_by_rebuilds', min(st['reconsts'], 10))
@@ -159,6 +186,8 @@ def run(ctx):
     core.run_shards(ctx, shard, args)
     if ctx.cov.get('max_code_bits', 0) < 17:
         raise core.HarnessFailure('workload never produced a code longer than 16 bits (max %s)' % ctx.cov.get('max_code_bits'))
+    if ctx.cov.get('max_distinct_node_frequencies', 0) < 330:
+        raise core.HarnessFailure('workload never made the tree hold more than %s different frequencies at once' % ctx.cov.get('max_distinct_node_frequencies'))
     if ctx.cov.get('tree_rebuilds', 0) < 2 or ctx.cov.get('tie_exchanges', 0) < 100:
         raise core.HarnessFailure('workload produced too few rebuilds / tie exchanges to say anything')
     ctx.cov['rule'] = ('streams = LZHUF reference encoder (vlib/lhamodel/lzhuf.py) applied to generated command lists from %d symbol '
